@@ -231,3 +231,11 @@ Theorem C02_corners_prefilled : forall c r r', prepare c r = Ok r' -> fc_incomin
   /\ combine (cc_elem r') (cc_adj r') = incidences (cells r').
 Proof. exact corners_prefilled_thm. Qed.
 Print Assumptions C02_corners_prefilled.
+
+(* after a construction that raised (a cell's face missing, completion off) the raw data object carries every earlier
+   step and an untouched cell_faces container: the caller can supply the faces and build the same object again *)
+Theorem C02_failed_prepare_left : forall c r e, prepare c r = Err e ->
+  prepare_left c r = stage5 c r
+  /\ cf_elem (prepare_left c r) = cf_elem r /\ cf_adj (prepare_left c r) = cf_adj r.
+Proof. exact failed_prepare_left. Qed.
+Print Assumptions C02_failed_prepare_left.
